@@ -189,7 +189,7 @@ def find_root(ctx, chk):
     XA, XE = Sym("xa", ("float", "notnone")), Sym("xe", ("float", "notnone"))
     fn = ctx.fn(ROOTQ)
     for first in (True, False):
-        outs = ctx.explore(lambda: ctx.ev.call(fn, [f, XA, XE, Const(first)], {}), chk)
+        outs = ctx.explore(lambda: ctx.call_named(fn, [("f", f), ("xa", XA), ("xe", XE), ("find_first", Const(first))]), chk)
         rets, rs = returns(outs), raises(outs)
         inst = "find_first=%s" % first
         fa, fe = App("call", (f, Tup([XA]))), App("call", (f, Tup([XE])))
